@@ -2,7 +2,7 @@
 Require Extraction.
 Require Import ExtrOcamlBasic.
 From Coq Require Import ZArith.
-From WS Require Import Base.Words Model.Mask Model.MaskAsm Model.Frame Model.Proto Model.CloseCodec Model.Writer Model.RefDecoder Model.Reader Model.CloseSM Model.Handshake Model.Sched Model.NetConn Model.WsJson Model.Life Model.Pools Model.Ping Model.WinPool Model.HsCompose.
+From WS Require Import Base.Words Model.Mask Model.MaskAsm Model.Frame Model.Proto Model.CloseCodec Model.Writer Model.RefDecoder Model.Reader Model.CloseSM Model.Handshake Model.Sched Model.NetConn Model.WsJson Model.Life Model.Pools Model.Ping Model.WinPool Model.HsCompose Model.Window.
 Extraction Language OCaml.
 Extraction "model.ml" BinInt.Z.add Mask.maskGo Mask.mask_spec Mask.rotk Mask.mask_piece MaskAsm.maskAsm_amd64
   Frame.enc_hdr Frame.dec_hdr CloseCodec.close_payload CloseCodec.parse_close Gen.CloseCode.valid_wire_code
@@ -11,4 +11,4 @@ Extraction "model.ml" BinInt.Z.add Mask.maskGo Mask.mask_spec Mask.rotk Mask.mas
   Handshake.accept_decide Handshake.verify_server_response Handshake.dial_headers Handshake.render_copts Handshake.accept_key Handshake.hs_get HsCompose.lib_request HsCompose.lib_response
   Sched.step Sched.init Sched.run Sched.frames_atomic Sched.msgs_unmixed Sched.after_close
   NetConn.nc_read NetConn.nc_init NetConn.dl_step WsJson.wj_write WsJson.wj_read WsJson.wj_reads
-  Ping.pg_run Pools.pstep Pools.pinit WinPool.wstep WinPool.winit WinPool.wdict WinPool.warray Life.lstep Life.linit Life.lrun Gen.Consts.c_timeoutWriteClose Gen.Consts.c_timeoutWaitCloseHandshake Gen.Consts.c_timeoutWaitGoroutines Gen.Consts.c_timeoutHandleControl Gen.Consts.c_timeoutWriteControl.
+  Ping.pg_run Pools.pstep Pools.pinit Window.trim_step WinPool.wstep WinPool.winit WinPool.wdict WinPool.warray Life.lstep Life.linit Life.lrun Gen.Consts.c_timeoutWriteClose Gen.Consts.c_timeoutWaitCloseHandshake Gen.Consts.c_timeoutWaitGoroutines Gen.Consts.c_timeoutHandleControl Gen.Consts.c_timeoutWriteControl.
